@@ -79,7 +79,13 @@ def cer_form_errors(case, data):
     if len(nodes) != 1:
         return ['%d top-level elements' % len(nodes)]
 
+    typed = []
+    typed_walk(case.t, nodes[0], typed)
+    opaque = set(id(n) for b, n in typed if b[0] == 'any')
+
     def rec(n):
+        if id(n) in opaque:
+            return          # the contents of an ANY are somebody else's encoding
         if n['cons'] and not n['indef']:
             errs.append('constructed element with definite length at %d' % n['start'])
         if not n['cons'] and n['indef']:
@@ -87,8 +93,6 @@ def cer_form_errors(case, data):
         for c in n.get('children', []):
             rec(c)
     rec(nodes[0])
-    typed = []
-    typed_walk(case.t, nodes[0], typed)
     for b, n in typed:
         if b[0] == 'bool' and n.get('content') not in (b'\x00', b'\xff'):
             errs.append('BOOLEAN contents %r' % n.get('content'))
@@ -192,7 +196,7 @@ def run(rep, tier, seed):
                 case = engine.Case(('seq', [('r', None, ('tag', mode, cls, num, ('int',)))]), ('seq', [('i', 5)]))
                 rep.case(case.canon, nontrivial=True)
                 check_case(rep, drv, case)
-    for case in engine.gen_cases(rng, n, max_depth=3):
+    for case in engine.gen_cases(rng, n, max_depth=3, allow_any=True):
         if not engine.representable(case):
             continue
         rep.case(case.canon, nontrivial=gen.nontrivial(case.t),
